@@ -35,7 +35,7 @@ class SinkSummary:
         self.memo[k] = False  # recursion guard
         if depth > 4:
             return False
-        res, sunk = walk_taint(self.F, fn, [0], {i}, self, depth + 1, want_sunk=True)
+        res, sunk, _places = walk_taint(self.F, fn, [0], {i}, self, depth + 1, want_sunk=True)
         ok = not res
         if res and sunk:
             # "first error wins": every non-storing path runs under `store.is_none() == false`
@@ -105,6 +105,7 @@ def walk_taint(F, fn, starts, taint0, summ, depth=0, budget=20000, want_sunk=Fal
     stack = [(b, frozenset(taint0), ()) for b in starts]
     steps = 0
     sunk_any = [False]
+    sink_locals = set()
     while stack:
         bb, taint, path = stack.pop()
         if (bb, taint) in seen:
@@ -130,6 +131,7 @@ def walk_taint(F, fn, starts, taint0, summ, depth=0, budget=20000, want_sunk=Fal
                         break
                     if lhs['p'] and (lhs['p'][0] == '*' or 1 <= lhs['l'] <= fn.arg_count):
                         sunk = True
+                        sink_locals.add(lhs['l'])
                         break
                     if lhs['l'] == 0:
                         # stored into the return place (e.g. Option<Error> return)
@@ -206,7 +208,7 @@ def walk_taint(F, fn, starts, taint0, summ, depth=0, budget=20000, want_sunk=Fal
         for s in succ:
             stack.append((s, frozenset(taint), path + ((bb, s),) if k == 'switch' else path))
     if want_sunk:
-        return bad, sunk_any[0]
+        return bad, sunk_any[0], sink_locals
     return bad
 
 
@@ -434,11 +436,20 @@ def run_err_swallow(ctx, scope=None):
             counts[base] = counts.get(base, 0) + 1
             key = base if counts[base] == 1 else '%s#%d' % (base, counts[base])
             nsite += 1
-            bad, sunk = walk_taint(F, fn, errs, {place['l']}, summ, want_sunk=True)
+            bad, sunk, places = walk_taint(F, fn, errs, {place['l']}, summ, want_sunk=True)
             if not bad:
                 ctx.ok(key, fn.loc(bb), 'error payload reaches Err return / error store / shared state on every path')
                 continue
-            if sunk and all(_path_has_cond(fn, prov, p, _is_store_occupied) for (_, _, p) in bad):
+
+            def _slot_occupied(cond, pol, places=places):
+                # the test must be on the very slot the other paths store into (an out-parameter / a place behind a pointer local)
+                if not _is_store_occupied(cond, pol):
+                    return False
+                c = cond
+                while c[0] == 'un':
+                    c = c[2]
+                return any((x[0] == 'param' and x[1] in places) or (x[0] == 'local' and x[1] in places) for a in c[2] for x in expr_walk(a))
+            if sunk and places and all(_path_has_cond(fn, prov, p, _slot_occupied) for (_, _, p) in bad):
                 ctx.ok(key, fn.loc(bb), 'error payload is stored into an error slot; the only paths that do not store it run under '
                        '"the slot already holds an error" (first error wins)')
                 continue
